@@ -61,7 +61,11 @@ class C06(Prop):
         except Exception as e: out.append('canvas unreadable: %s' % e)
         eb = [geom.translate_elem(e, 0, 0) for e in rb.elems() if e.tag not in ('style', 'defs') and e.get('class') != 'backdrop']
         em = [geom.translate_elem(e, dx, dy) for e in rm.elems() if e.tag not in ('style', 'defs') and e.get('class') != 'backdrop']
-        if eb != em:
+        # at the default scale every coordinate is printed exactly and the comparison is exact; at other scales the
+        # binary32 product with the scale is rounded at the position, and the property's tolerance (1e-3 cell) applies
+        tol = F(0) if sc == 8 else sc / 1000
+        same = eb == em if tol == 0 else (len(eb) == len(em) and all(geom.near_elem(x, y, tol) for x, y in zip(eb, em)))
+        if not same:
             a = [e for e in eb if e not in em][:2]; b = [e for e in em if e not in eb][:2]
             out.append('after moving by (%d,%d) the elements are not the translated ones: only at origin %r; only moved (shift removed) %r%s' % (
                 k, n, a, b, '' if a or b else ' (same elements, different order)'))
